@@ -27,13 +27,19 @@ CSamePhase(law, info, a, b, rtol) ==
   /\ CSameX(law, info, a, b.x, rtol)
 
 \* conditions on a two-phase result r = [ok, v, l] of a mixture calculation
+\* A failure signature of its own (call site: the bubble / dew point iteration of bubble_dew.rs): the pressure runs to zero, both phases become ideal
+\* gases of vanishing density, the residual vanishes and the iteration returns Ok (p ~ 1e-144 .. 1e-197 observed).  Such a result is reported once,
+\* under its own law, instead of through every condition it happens to break; it is listed as a known finding by call site.
+Collapsed(r) == r.ok /\ FLt(r.v.p, "1e-100")
 TwoPhase(pid, what, info, r, tol) ==
-  r.ok => /\ Report(pid \o ".equal_T_p", <<what, info, r.v.T, r.l.T, l>>, EqualT(r.v, r.l))
-          /\ CEqualP(pid \o ".equal_T_p", <<what, info>>, r.v, r.l, tol)
-          /\ CIsoFug(pid \o ".isofugacity", <<what, info>>, r.v, r.l, tol)
-          /\ Report(pid \o ".not_trivial", <<what, info, l>>, NotTrivial(r.v, r.l))
+  r.ok => IF Collapsed(r) THEN Report(pid \o ".result_collapsed_to_zero_pressure", <<what, info, r.v.p, l>>, FALSE)
+          ELSE /\ Report(pid \o ".equal_T_p", <<what, info, r.v.T, r.l.T, l>>, EqualT(r.v, r.l))
+               /\ CEqualP(pid \o ".equal_T_p", <<what, info>>, r.v, r.l, tol)
+               /\ CIsoFug(pid \o ".isofugacity", <<what, info>>, r.v, r.l, tol)
+               /\ Report(pid \o ".not_trivial", <<what, info, l>>, NotTrivial(r.v, r.l))
 Agree(law, info, r0, r1, tol) ==
-  (r0.ok /\ r1.ok) => CSamePhase(law, <<info, "vapor">>, r0.v, r1.v, tol) /\ CSamePhase(law, <<info, "liquid">>, r0.l, r1.l, tol)
+  (r0.ok /\ r1.ok) => IF Collapsed(r0) \/ Collapsed(r1) THEN Report("C12.result_collapsed_to_zero_pressure", <<law, info, r0.v.p, r1.v.p, l>>, FALSE)
+                       ELSE CSamePhase(law, <<info, "vapor">>, r0.v, r1.v, tol) /\ CSamePhase(law, <<info, "liquid">>, r0.l, r1.l, tol)
 
 \* ---------------------------------------------------------------- C04 / C12 pure
 PureVle ==
@@ -258,12 +264,11 @@ EnvelopeLine ==
                   /\ TwoPhase("C05", E.kind \o " point line", <<info, k>>, r, TolBubble)
                   /\ CSameX("C05.specification_kept", <<info, k, "composition">>, IF E.kind = "bubble" THEN P[k].l ELSE P[k].v, E.z, "1e-12")
                   \* between the critical temperature and the cricondentherm a composition has two dew points: compared only below T_c
-                  /\ ((Has(P[k], "alone") /\ FLt(P[k].v.T, FMul("0.99", P[n].v.T))) =>
-                        \* failure signature of its own (call site: temperature-specified bubble / dew point WITHOUT an initial pressure): the stand-alone
-                        \* solve returns Ok at a vanishing pressure (both phases ideal gases of almost zero density) - listed as a known finding by call site
-                        IF P[k].alone.ok /\ FLt(P[k].alone.v.p, FMul("1e-30", P[k].v.p))
-                        THEN Report("C12.standalone_point_collapsed_to_zero_pressure", <<info, k, P[k].v.T, P[k].v.p, P[k].alone.v.p, l>>, FALSE)
-                        ELSE Agree("C12.envelope_point_equals_standalone", <<info, k>>, r, P[k].alone, TolGuess)))
+                  \* dew_point_line solves its first npoints/2 - 1 points at given temperature (like the stand-alone solve) and the rest at given
+                  \* pressure, where the same temperature may belong to another branch of the dew curve (two dew pressures at one temperature occur for
+                  \* asymmetric mixtures such as eicosane + ethyl ethanoate even below the mixture critical temperature): only the first part is compared
+                  /\ ((Has(P[k], "alone") /\ FLt(P[k].v.T, FMul("0.99", P[n].v.T)) /\ (E.kind = "bubble" \/ 2 * (k + 1) <= E.npoints)) =>
+                        Agree("C12.envelope_point_equals_standalone", <<info, k>>, r, P[k].alone, TolGuess)))
             /\ (E.kind = "spinodal" =>
                   /\ Report("C06.spinodal_line_equal_T", <<info, k, l>>, EqualT(P[k].v, P[k].l))
                   /\ Chk("C06.spinodal_eigenvalue", <<info, k, "vapor side", l>>, LamMin(P[k].v), "0", "1", "0", "1e-6")
